@@ -330,7 +330,7 @@ def io_textgrid(draw, rich=True, tokens=True, max_tiers=4, clean=True, styles=("
     lab = labels(tokens) if rich else SMALL_LABELS
     nm = names(tokens) if rich else st.sampled_from(["a", "b", "c", "d", "e"])
     n = draw(st.integers(1, max_tiers))
-    if draw(st.integers(0, 24)) == 0:
+    if draw(st.integers(0, 11)) == 5:
         n = draw(st.integers(10, 12))  # two-digit tier indices (item [10]:)
     tiers, used = [], set()
     pool = None
